@@ -112,7 +112,7 @@ def main(argv):
             ck.seed, ck.tier = int(sd), tier
             ck.rng = random.Random(ck.seed * 1000003 + sum(map(ord, "C21")))
         else:
-            ck.correspond(hb, db, [read_replay(ck.replay)], label="okl-openmp-structure", timeout=900, env=env)
+            ck.correspond(hb, db, [read_replay(ck.replay)], label="okl-openmp-structure", timeout=3600, env=env)
             ck.finish(META["level_text"])
     feats = set()
     n_s = 25 if ck.tier == "quick" else 800
@@ -122,7 +122,7 @@ def main(argv):
     if regen:
         omp_round(ck, hb, [K for K in kernels if K.name == regen], "c21_replay")
         ck.finish(META["level_text"])
-    ck.correspond(hb, db, hs, label="okl-openmp-structure", timeout=1800, env=env,
+    ck.correspond(hb, db, hs, label="okl-openmp-structure", timeout=3600, env=env,
                   nontrivial=lambda h, impl: any("openmp=K" in o for o in impl),
                   canon_impl=only_host, canon_model=only_host)
     if hb:
